@@ -55,6 +55,9 @@ func goid() int64 {
 	return v
 }
 
+// Goid returns the current goroutine's id (used by harnesses to attach per-goroutine context to hook calls).
+func Goid() int64 { return goid() }
+
 // NewSched creates a scheduler and installs its hook handler.
 func NewSched(schedule []int) *Sched {
 	s := &Sched{byGoid: map[int64]*sthread{}, schedule: schedule, events: make(chan struct{}, 1024), Watchdog: 2 * time.Millisecond, maxTrace: 400}
